@@ -147,6 +147,8 @@ func c04Rules(p *core.Prog, r *core.Run) {
 	c04AfterReparse(p, r, m)
 	// ... and means what it says: set for a supported_versions entry >= 0x0304 only
 	c05SniAlpn(p, r, m, "C04.G6.parse")
+	// "sent to a server that has keys": the keys are all the keys it was given
+	c09Keys(p, r, m, "C04.keys")
 
 	// G7: padding
 	c04Padding(p, r, m)
@@ -1202,6 +1204,31 @@ func c04AlertMap(p *core.Prog, r *core.Run, m *echModel, rule string) {
 			okC = true
 		}
 	}
+	// nothing else happens to the connection there: no read, no deadline, no
+	// half-close (the alert is sent on NewConn's way out, after the context
+	// watcher was stopped: whatever blocks here blocks NewConn for good)
+	nExtra := 0
+	for _, l := range core.Closures(send) {
+		for _, s := range allCalls(p, []*ssa.Function{l}) {
+			if _, isB := s.Instr.Common().Value.(*ssa.Builtin); isB {
+				continue
+			}
+			if matches(`\(io\.WriteCloser\)\.(Write|Close)|\(net\.Conn\)\.(Write|Close)|\(io\.Writer\)\.Write|\(io\.Closer\)\.Close`, s.X.Name) {
+				continue
+			}
+			nExtra++
+			r.Check(rule, fmt.Sprintf("sendAlert:only-write-close#%d", nExtra), false, p.InstrPos(s.Instr), "sendAlert also calls %s: sending an alert is one write and, for a fatal alert, the close", s.X.Name)
+		}
+		for _, b := range l.Blocks {
+			for _, in := range b.Instrs {
+				if ta, ok := in.(*ssa.TypeAssert); ok {
+					nExtra++
+					r.Check(rule, fmt.Sprintf("sendAlert:only-write-close#%d", nExtra), false, p.InstrPos(ta), "sendAlert looks for further abilities of the connection (%s): sending an alert is one write and, for a fatal alert, the close", short(p.X(ta)))
+				}
+			}
+		}
+	}
+	r.Check(rule, "sendAlert:only-write-close", nExtra == 0, p.Pos(send.Pos()), "sendAlert does nothing to the connection but write the record and close (%d other operations)", nExtra)
 	r.Check(rule, "sendAlert:write", okW, p.Pos(send.Pos()), "the alert is written unconditionally")
 	r.Check(rule, "sendAlert:close", okC, p.Pos(send.Pos()), "the connection is closed after a fatal (level 2) alert, so the client sees end of stream")
 	r.Floor(rule, 14)
@@ -1210,6 +1237,25 @@ func c04AlertMap(p *core.Prog, r *core.Run, m *echModel, rule string) {
 func c04AlertDeliver(p *core.Prog, r *core.Run, m *echModel, rule string) {
 	nc := m.newConn
 	errCell := namedResultCell(nc, nc.Signature.Results().Len()-1)
+	// the class of the error the caller gets and the alert the client gets are
+	// decided by the return statements: no deferred function replaces the error
+	if errCell != nil {
+		nRew := 0
+		for _, l := range core.Closures(nc) {
+			if l == nc {
+				continue
+			}
+			for _, b := range l.Blocks {
+				for _, in := range b.Instrs {
+					if st, ok := in.(*ssa.Store); ok && p.CellRoot(st.Addr) == errCell {
+						nRew++
+						r.Check(rule, fmt.Sprintf("NewConn:error-rewritten#%d", nRew), false, p.InstrPos(st), "a function literal of NewConn replaces the error result (%s): the alert and the class the caller tests are those of the return statement", short(p.X(st.Val)))
+					}
+				}
+			}
+		}
+		r.Check(rule, "NewConn:error-as-returned", nRew == 0, p.Pos(nc.Pos()), "no function literal of NewConn stores to its error result (%d stores)", nRew)
+	}
 	rets := core.Returns(nc)
 	delivered := false
 	for _, b := range nc.Blocks {
